@@ -154,9 +154,23 @@ def run(ck, prog, ctx):
         return
     fam = prog.family(sub)
     seen_kinds = set()
+    # a public Builder method that annotate_K itself hands its work to (a bulk `annotate_gene_terms(id, name, terms)`) is annotate_K for this
+    # section: same record, same links, the terms arrive as one collection
+    deleg_ = {}
+    for m_, K_ in ANNOT.items():
+        for ab_ in prog.production():
+            if ab_.kind == "AssocFn" and ab_.name == m_ and "Builder" in ab_.id:
+                for fb_ in prog.family(ab_):
+                    for _, t_ in fb_.calls():
+                        tg_ = prog.bodies.get(t_.callee.res or "")
+                        if tg_ is not None and tg_.kind == "AssocFn" and tg_.impl_self == ab_.impl_self and not tg_.impl_trait and (tg_.exported or tg_.reachable) and tg_.id != ab_.id and len(t_.args) == len(tg_.locals[1:tg_.nargs + 1]) == 4:
+                            deleg_[tg_.id] = m_
+    ctx["c14_deleg"] = deleg_
     for fb in fam:
         for bi, t in fb.calls():
             m = t.callee.res.rsplit("::", 1)[-1] if t.callee.res else ""
+            if t.callee.res in deleg_:
+                m = deleg_[t.callee.res]
             if m not in ANNOT or "Builder" not in (t.callee.res or ""):
                 continue
             K = ANNOT[m]
@@ -293,7 +307,7 @@ def run(ck, prog, ctx):
     def _far_only(pred_):
         """the step exists, but only in private code beyond the body and its direct helpers"""
         return not any(pred_(t_) for x in prog.family(sub) for _, t_ in x.calls()) and any(pred_(t_) for x in _scope if x.id not in _own for _, t_ in x.calls())
-    _steps = [("re-annotate " + K, (lambda mm: (lambda t: (t.callee.res or "").endswith("::" + mm)))(m)) for m, K in sorted(ANNOT.items())] + [
+    _steps = [("re-annotate " + K, (lambda mm: (lambda t: (t.callee.res or "").endswith("::" + mm) or deleg_.get(t.callee.res or "") == mm))(m)) for m, K in sorted(ANNOT.items())] + [
         ("copy every retained term", lambda t: (t.callee.res or "").endswith("LooseCollection>::add_term")),
         ("link retained parents", lambda t: (t.callee.res or "").endswith("::add_parent_unchecked") or (t.callee.res or "").endswith("AllTerms>::add_parent")),
         ("connect_all_terms", lambda t: (t.callee.res or "").endswith("::connect_all_terms")),
